@@ -230,6 +230,18 @@ class Evaluator:
                     return a | b
                 if isinstance(e.op, ast.Mult):
                     return a * b
+                if isinstance(e.op, ast.Mod) and isinstance(a, int) and \
+                        isinstance(b, int) and b != 0:
+                    return a % b
+                if isinstance(e.op, ast.FloorDiv) and isinstance(a, int) \
+                        and isinstance(b, int) and b != 0:
+                    return a // b
+                if isinstance(e.op, ast.LShift) and isinstance(a, int) and \
+                        isinstance(b, int) and 0 <= b < 64:
+                    return a << b
+                if isinstance(e.op, ast.RShift) and isinstance(a, int) and \
+                        isinstance(b, int) and 0 <= b < 64:
+                    return a >> b
             except Exception:
                 pass
             return Unknown(key)
